@@ -36,6 +36,37 @@ pub fn parse_err(e: &StunParseError) -> String {
     }
 }
 
+/// the same two type bytes in front of a cookie, zero length and a transaction id: what the header decoder
+/// and the full parser make of them (class and method as the parsed Message reports them, and the type
+/// field of the success/error responses built from it)
+fn via_header(b: &[u8]) -> String {
+    if b.len() != 2 {
+        return "hdr=- msg=-".into();
+    }
+    let mut m = vec![b[0], b[1], 0, 0, 0x21, 0x12, 0xa4, 0x42];
+    m.extend_from_slice(&[0, 1, 2, 3, 4, 5, 6, 7, 8, 9, 10, 11]);
+    let h = match MessageHeader::from_bytes(&m) {
+        Ok(h) => format!("ok:{}:{}", cls_index(h.get_type().class()), h.get_type().method()),
+        Err(_) => "refused".into(),
+    };
+    let p = match Message::from_bytes(&m) {
+        Ok(msg) => {
+            let echo = if msg.has_class(MessageClass::Request) {
+                format!(
+                    ":{}:{}",
+                    hex(&Message::builder_success(&msg).build()[..2]),
+                    hex(&Message::builder_error(&msg).build()[..2])
+                )
+            } else {
+                String::new()
+            };
+            format!("ok:{}:{}:{}{}", cls_index(msg.class()), msg.method(), cls_index(msg.get_type().class()), echo)
+        }
+        Err(_) => "refused".into(),
+    };
+    format!("hdr={} msg={}", h, p)
+}
+
 pub fn exec(kv: &Kv) -> String {
     match kv.get("op") {
         "frombytes" => {
@@ -47,15 +78,16 @@ pub fn exec(kv: &Kv) -> String {
                     let mut w = [0u8; 2];
                     t.write_into(&mut w);
                     format!(
-                        "ok cls={} meth={} same={} wire={} wire2={}",
+                        "ok cls={} meth={} same={} wire={} wire2={} {}",
                         cls_index(t.class()),
                         t.method(),
                         (t == t2) as u8,
                         hex(&t.to_bytes()),
-                        hex(&w)
+                        hex(&w),
+                        via_header(&b)
                     )
                 }
-                Err(e) => parse_err(&e),
+                Err(e) => format!("{} {}", parse_err(&e), via_header(&b)),
             }
         }
         "fcm" => {
